@@ -74,6 +74,8 @@ var walkerEntry = map[string]bool{"VisitStmt": true, "VisitExpr": true, "VisitLo
 	"VisitLocalDef": true, "VisitStmtList": true, "VisitComment": true, "VisitLocalComment": true, "VisitDocComment": true, "EnterFile": true, "EnterFunc": true, "WalkFile": true}
 
 // sweepRequires synthesises the entry assumption of a function that has no contract.
+var sweepEngine *Engine
+
 func sweepRequires(fn *ssa.Function) []string {
 	var rs []string
 	for i, p := range fn.Params {
@@ -98,7 +100,11 @@ func sweepRequires(fn *ssa.Function) []string {
 		case isAstPtr(t) || isRepoStructPtr(t):
 			rs = append(rs, name+" != nil")
 			if isAstPtr(t) {
-				rs = append(rs, "tnode("+name+")")
+				if sweepEngine != nil && sweepEngine.sentinelParam(fn, i) {
+					rs = append(rs, "tnodeOrSentinel("+name+")")
+				} else {
+					rs = append(rs, "tnode("+name+")")
+				}
 			}
 			if strings.HasSuffix(t.String(), "linter.CheckerContext") {
 				rs = append(rs, fmt.Sprintf("%s.Context != nil && %s.TypesInfo != nil", name, name))
@@ -129,6 +135,7 @@ func sweepRequires(fn *ssa.Function) []string {
 }
 
 func (e *Engine) sweepContract(fn *ssa.Function, prop string) *Contract {
+	sweepEngine = e
 	ctr := &Contract{Key: funcKey(fn), Loops: map[int]*LoopSpec{}, Props: []string{prop}, File: "synthesised by govc (sweep)"}
 	reqs := sweepRequires(fn)
 	if e.needPrivate != nil {
@@ -490,6 +497,27 @@ func sweepHookOpts(prop string, keep func(o *Obligation) bool, frames bool) prop
 
 // writeLedger records the obligations proved in this run (used when VERIF_WRITE_LEDGER is set, on the unchanged tree).
 func writeLedger(prop string, jobs []job) {
+	if prop == "C01" {
+		// parameters whose strict "is a tree node" guarantee fails at some call site get the weaker form from the next run on
+		cur := loadLedger("C01", "sentinel-params")
+		added := 0
+		for _, j := range jobs {
+			if strings.HasPrefix(j.o.Meta, "sentparam:") && j.o.Result != "unsat" {
+				k := strings.TrimPrefix(j.o.Meta, "sentparam:")
+				if !cur[k] {
+					cur[k] = true
+					added++
+				}
+			}
+		}
+		var ks []string
+		for k := range cur {
+			ks = append(ks, k)
+		}
+		sort.Strings(ks)
+		os.WriteFile(filepath.Join(verifDir, "ledger", "C01.sentinel-params"), []byte("# parameters assumed to be a tree node OR the all-zero node astcast.NilX (their strict guarantee fails at some call site); regenerate with VERIF_WRITE_LEDGER=1 until no line is added\n"+strings.Join(ks, "\n")+"\n"), 0o644)
+		fmt.Printf("ledger: %d sentinel-tolerant parameters (%d added in this run; rerun until 0 are added)\n", len(ks), added)
+	}
 	var names []string
 	for _, j := range jobs {
 		if !j.o.Cover && j.o.Result == "unsat" && j.o.TimeS < 1.0 {
